@@ -58,6 +58,9 @@ impl CounterMarker {
         }
     }
 
+    #[cfg_attr(kani, kani::requires(verif_proofs::rc_valid(self)))]
+    #[cfg_attr(kani, kani::modifies(&self.counter))]
+    #[cfg_attr(kani, kani::ensures(|r| verif_proofs::post_step(old(self.counter.get()), self.counter.get(), r.is_ok(), 1, MAX)))]
     #[inline]
     pub(crate) fn increment_counter(&self) -> Result<(), OverflowError> {
         debug_assert!(self.counter() != COUNTER_MASK); // Check for reserved value
@@ -71,6 +74,9 @@ impl CounterMarker {
         }
     }
 
+    #[cfg_attr(kani, kani::requires(verif_proofs::rc_valid(self)))]
+    #[cfg_attr(kani, kani::modifies(&self.counter))]
+    #[cfg_attr(kani, kani::ensures(|r| verif_proofs::post_step(old(self.counter.get()), self.counter.get(), r.is_ok(), -1, 0)))]
     #[inline]
     pub(crate) fn decrement_counter(&self) -> Result<(), OverflowError> {
         debug_assert!(self.counter() != COUNTER_MASK); // Check for reserved value
@@ -84,6 +90,9 @@ impl CounterMarker {
         }
     }
 
+    #[cfg_attr(kani, kani::requires(verif_proofs::tc_valid(self)))]
+    #[cfg_attr(kani, kani::modifies(&self.tracing_counter))]
+    #[cfg_attr(kani, kani::ensures(|r| verif_proofs::post_step(old(self.tracing_counter.get()), self.tracing_counter.get(), r.is_ok(), 1, MAX)))]
     #[inline]
     pub(crate) fn increment_tracing_counter(&self) -> Result<(), OverflowError> {
         debug_assert!(self.tracing_counter() != COUNTER_MASK); // Check for reserved value
@@ -98,6 +107,9 @@ impl CounterMarker {
         }
     }
 
+    #[cfg_attr(kani, kani::requires(verif_proofs::tc_valid(self)))]
+    #[cfg_attr(kani, kani::modifies(&self.tracing_counter))]
+    #[cfg_attr(kani, kani::ensures(|r| verif_proofs::post_step(old(self.tracing_counter.get()), self.tracing_counter.get(), r.is_ok(), -1, 0)))]
     #[inline]
     pub(crate) fn _decrement_tracing_counter(&self) -> Result<(), OverflowError> {
         debug_assert!(self.tracing_counter() != COUNTER_MASK); // Check for reserved value
@@ -126,6 +138,9 @@ impl CounterMarker {
         tc
     }
 
+    #[cfg_attr(kani, kani::requires(verif_proofs::tc_valid(self)))]
+    #[cfg_attr(kani, kani::modifies(&self.tracing_counter))]
+    #[cfg_attr(kani, kani::ensures(|_r| self.tracing_counter.get() == (old(self.tracing_counter.get()) & BITS_MASK)))]
     #[inline]
     pub(crate) fn reset_tracing_counter(&self) {
         debug_assert!(self.tracing_counter() != COUNTER_MASK); // Check for reserved value
@@ -197,6 +212,8 @@ impl CounterMarker {
         (self.tracing_counter.get() & FIRST_BIT_MASK) == FIRST_BIT_MASK
     }
 
+    #[cfg_attr(kani, kani::modifies(&self.tracing_counter))]
+    #[cfg_attr(kani, kani::ensures(|_r| self.tracing_counter.get() == ((old(self.tracing_counter.get()) & COUNTER_MASK) | (new_mark as u16))))]
     #[inline]
     pub(crate) fn mark(&self, new_mark: Mark) {
         self.tracing_counter.set((self.tracing_counter.get() & !BITS_MASK) | (new_mark as u16));
@@ -221,3 +238,7 @@ pub(crate) enum Mark {
     InList = IN_LIST,
     InQueue = IN_QUEUE,
 }
+
+#[cfg(kani)]
+#[path = "/verif/kani/counter_marker_proofs.rs"]
+pub(crate) mod verif_proofs; // verification hook (H2): specs and contract harnesses live in /verif
